@@ -252,6 +252,9 @@ _binary("logical_or", "logical", result="bool")
 @recipe("power", "power", operator="pow", flags=("ring",), cost=3)
 def _power(draw, og):
     a = og.array(draw, max_ndim=2)
+    if getattr(og, "mode", "") == "const" and draw(st.integers(0, 3)) == 0:
+        # on numbers numpy also takes negative and fractional exponents (or rejects them for integers)
+        return {"args": [P(a), draw(st.sampled_from([-1, -2, 0.5, 1.5, 2.0]))], "kw": {}}
     if draw(st.booleans()):
         return {"args": [P(a), draw(st.integers(0, 3))], "kw": {}}
     shp = gen.broadcast_member(draw, tuple(a["shape"]))
@@ -306,16 +309,25 @@ def _with_dtype(draw, kw, a):
     return kw
 
 
+def _with_where(draw, kw, a, og):
+    """Sometimes a reduction mask (numeric operands only: numpy itself is the reference there)."""
+    if getattr(og, "mode", "") == "const" and draw(st.integers(0, 4)) == 0:
+        shp = gen.broadcast_member(draw, tuple(a["shape"]))
+        size = gen.size_of(shp)
+        kw["where"] = NP(draw(st.lists(st.booleans(), min_size=size, max_size=size)), "bool", shape=shp)
+    return kw
+
+
 @recipe("any", "logical", result="bool", method="any", reduce="logical_or")
 def _any(draw, og):
     a = og.array(draw, min_ndim=1)
-    return {"args": [P(a)], "kw": _reduce_kw(draw, a)}
+    return {"args": [P(a)], "kw": _with_where(draw, _reduce_kw(draw, a), a, og)}
 
 
 @recipe("all", "logical", result="bool", method="all", reduce="logical_and")
 def _all(draw, og):
     a = og.array(draw, min_ndim=1)
-    return {"args": [P(a)], "kw": _reduce_kw(draw, a)}
+    return {"args": [P(a)], "kw": _with_where(draw, _reduce_kw(draw, a), a, og)}
 
 
 @recipe("count_nonzero", "logical", result="index")
@@ -372,6 +384,8 @@ def _amax(draw, og):
         kw["axis"] = ax
     if draw(st.integers(0, 3)) == 0:
         kw["keepdims"] = True
+    if getattr(og, "mode", "") == "const" and ax is None and draw(st.integers(0, 3)) == 0:
+        kw["initial"] = draw(st.sampled_from([10, -10, 1, 0]))
     return {"args": [P(a)], "kw": kw}
 
 
@@ -385,6 +399,8 @@ def _argmax(draw, og):
     ax = axis_of(draw, ndim_of(a))
     if ax is not None:
         kw["axis"] = ax
+    if draw(st.integers(0, 3)) == 0:
+        kw["keepdims"] = True
     return {"args": [P(a)], "kw": kw}
 
 
@@ -403,13 +419,13 @@ def _with_initial(draw, kw):
 @recipe("sum", "reduction", method="sum", reduce="add")
 def _sum(draw, og):
     a = og.array(draw, min_ndim=1)
-    return {"args": [P(a)], "kw": _with_initial(draw, _with_dtype(draw, _reduce_kw(draw, a), a))}
+    return {"args": [P(a)], "kw": _with_where(draw, _with_initial(draw, _with_dtype(draw, _reduce_kw(draw, a), a)), a, og)}
 
 
 @recipe("prod", "reduction", method="prod", reduce="multiply", cost=3)
 def _prod(draw, og):
     a = og.array(draw, min_ndim=1)
-    return {"args": [P(a)], "kw": _with_initial(draw, _with_dtype(draw, _reduce_kw(draw, a), a))}
+    return {"args": [P(a)], "kw": _with_where(draw, _with_initial(draw, _with_dtype(draw, _reduce_kw(draw, a), a)), a, og)}
 
 
 @recipe("mean", "reduction", method="mean")
@@ -436,8 +452,13 @@ def _cumsum(draw, og):
 @recipe("inner", "linalg", cost=2)
 def _inner(draw, og):
     n = draw(st.integers(1, 4))
-    a = og.array(draw, shape=(n,))
-    b = og.related(draw, a, (n,))
+    sa, sb = (n,), (n,)
+    if getattr(og, "mode", "") == "const" and draw(st.integers(0, 2)) == 0:
+        # beyond vectors: a sum product over the last axes, a plain product with a scalar
+        sa, sb = draw(st.sampled_from([((2, n), (n,)), ((n,), (3, n)), ((2, n), (3, n)), ((n,), ()), ((), (2, n)),
+                                       ((2, 1, n), (2, n))]))
+    a = og.array(draw, shape=sa)
+    b = og.related(draw, a, sb)
     return {"args": [P(a), P(b)], "kw": {}}
 
 
@@ -771,7 +792,11 @@ def _choose(draw, og):
     n = draw(st.integers(1, 3))
     target = draw(gen.shape_st(2))
     # choices: n operands of one shape (stacked by the caller into a list)
-    ops = _join_ops(draw, og, [tuple(target)] * n)
+    shapes = [tuple(target)] * n
+    if draw(st.integers(0, 3)) == 0:
+        # choices (and the index array) only have to broadcast against each other
+        shapes = [tuple(target)] + [gen.broadcast_member(draw, tuple(target)) for _ in range(n - 1)]
+    ops = _join_ops(draw, og, shapes)
     ishape = tuple(target)
     size = gen.size_of(ishape)
     mode = draw(st.sampled_from(["raise", "wrap", "clip"]))
